@@ -55,15 +55,6 @@ def fdecl(names, ty, comment=(), tag=None):
     return {"names": list(names), "ty": ty, "comment": comment, "doc": doc_text(comment), "tag": tag}
 
 
-HELPER_STRUCTS = [
-    {"pkg": "helper", "name": "Pt", "tparams": [], "doc": "", "comment": [],
-     "fields": [fdecl(["X", "Y"], T_basic("int"))]},
-    {"pkg": "helper", "name": "HBase", "tparams": [], "doc": "", "comment": [],
-     "fields": [fdecl(["HX"], T_basic("int")), fdecl(["HY"], T_basic("string"))]},
-    {"pkg": "helper", "name": "HDeep", "tparams": [], "doc": "", "comment": [],
-     "fields": [fdecl([], T_named("helper", "HBase")), fdecl(["HZ"], T_basic("int"))]},
-]
-
 GO_KEYWORDS = {"break", "default", "func", "interface", "select", "case", "defer", "go", "map", "struct", "chan",
                "else", "goto", "package", "switch", "const", "fallthrough", "if", "range", "type", "continue",
                "for", "import", "return", "var"}
@@ -73,12 +64,6 @@ RESERVED = {"helper", "time", "shoot", "json", "nil", "true", "false", "int", "s
 
 # ------------------------------------------------------------------ case transforms (Python port, used only
 # to steer generation; verdicts come from the Coq model, which is tied to the Go code by transfer_l1)
-
-
-def to_pascal(s):
-    if s == "":
-        return ""
-    return "".join(p[:1].upper() + p[1:] for p in s.split("_") if p != "") if True else ""
 
 
 def _go_pascal(s):
@@ -157,6 +142,16 @@ def doc_text(comment_lines):
     return "\n".join(out) + "\n"
 
 
+HELPER_STRUCTS = [
+    {"pkg": "helper", "name": "Pt", "tparams": [], "doc": "", "comment": [],
+     "fields": [fdecl(["X", "Y"], T_basic("int"))]},
+    {"pkg": "helper", "name": "HBase", "tparams": [], "doc": "", "comment": [],
+     "fields": [fdecl(["HX"], T_basic("int")), fdecl(["HY"], T_basic("string"))]},
+    {"pkg": "helper", "name": "HDeep", "tparams": [], "doc": "", "comment": [],
+     "fields": [fdecl([], T_named("helper", "HBase")), fdecl(["HZ"], T_basic("int"))]},
+]
+
+
 # ------------------------------------------------------------------ Go rendering
 def go_type(t, pkgname=None, subst=None):
     k = t[0]
@@ -194,7 +189,7 @@ def type_string(t):
     if k == "named":
         s = (t[1] + "." if t[1] else "") + t[2]
         if t[3]:
-            s += "[" + ",".join(type_string(a) for a in t[3]) + "]"
+            s += "[" + ", ".join(type_string(a) for a in t[3]) + "]"
         return s
     return t[1]
 
@@ -456,10 +451,21 @@ def field_comment(rng, want_new, defv, want_get=None, want_set=None, messy=0.25)
     return lines
 
 
-def pick_names(rng, forms, k, avoid):
-    pool = [n for f in forms for n in NAME_FORMS[f] if n not in avoid]
+def pick_names(rng, forms, k, avoid, avoid_camel=()):
+    pool = [n for f in forms for n in NAME_FORMS[f] if n not in avoid and to_camel(n) not in avoid_camel]
     rng.shuffle(pool)
     return pool[:k]
+
+
+def depth_names(pkg, t):
+    """{(name, depth)} of the occurrences below an embedded field of type t (the field itself at depth 0)"""
+    sub = struct_of(pkg, t)
+    res = {(short_name(t), 0)}
+    if sub is not None:
+        sargs = (t[1] if t[0] == "ptr" else t)[3]
+        for o in occurrences(pkg, sub, sargs):
+            res.add((o[1], len(o[0])))
+    return res
 
 
 def gen_struct_pkg(rng, name, nstructs=None, p_embed=0.6, p_shadow=0.45, p_new=0.3, p_def=0.3,
@@ -492,7 +498,8 @@ def gen_struct_pkg(rng, name, nstructs=None, p_embed=0.6, p_shadow=0.45, p_new=0
         if pkg["structs"] and rng.random() < p_embed:
             cands = [s for s in pkg["structs"] if embed_depth(pkg, s) < max_depth]
             rng.shuffle(cands)
-            for s in cands[:rng.choice([1, 1, 1, 2])]:
+            taken_nd = set()
+            for s in cands[:rng.choice([1, 1, 2, 2, 3])]:
                 args = [T_basic(rng.choice(["int", "string"])) if not tpn or rng.random() < 0.6 else ("param", rng.choice(tpn))
                         for _ in tparam_names(s)]
                 # a constraint Number only admits int here
@@ -507,11 +514,19 @@ def gen_struct_pkg(rng, name, nstructs=None, p_embed=0.6, p_shadow=0.45, p_new=0
                 t = T_named("", s["name"], args)
                 if allow_ptr_embed and rng.random() < 0.4:
                     t = ("ptr", t)
+                nd_ = depth_names(pkg, t)
+                if nd_ & taken_nd and rng.random() < 0.9:
+                    continue                      # would be ambiguous at one depth
+                taken_nd |= nd_
                 embeds.append(t)
         if rng.random() < p_helper_embed:
-            embeds.append(T_named("helper", rng.choice(["HBase", "HDeep"])))
+            t = T_named("helper", rng.choice(["HBase", "HDeep"]))
             if rng.random() < 0.3:
-                embeds[-1] = ("ptr", embeds[-1])
+                t = ("ptr", t)
+            nd_ = depth_names(pkg, t)
+            clash = any(nd_ & depth_names(pkg, u) for u in embeds)
+            if not clash:
+                embeds.append(t)
         # names reachable below (candidates for shadowing)
         below = []
         for t in embeds:
@@ -520,6 +535,7 @@ def gen_struct_pkg(rng, name, nstructs=None, p_embed=0.6, p_shadow=0.45, p_new=0
             below += [o[1] for o in occurrences(pkg, sub, sargs)]
         nown = rng.choice([1, 2, 2, 3, 3, 4, 5]) if embeds else rng.choice([1, 2, 3, 3, 4, 5, 6])
         used = set(short_name(t) for t in embeds)
+        used_camel = set(to_camel(b) for b in below) | set(to_camel(u) for u in used)
         groups = []
         any_new = rng.random() < p_new
         k = 0
@@ -535,10 +551,11 @@ def gen_struct_pkg(rng, name, nstructs=None, p_embed=0.6, p_shadow=0.45, p_new=0
                         names.append(nm)
                         used.add(nm)
                         continue
-                got = pick_names(rng, forms, 1, used)
+                got = pick_names(rng, forms, 1, used, used_camel)
                 if got:
                     names.append(got[0])
                     used.add(got[0])
+                    used_camel.add(to_camel(got[0]))
             if not names:
                 break
             k += len(names)
